@@ -89,9 +89,43 @@ type ChanObj struct {
 	Cap         int
 	Closed      bool
 	ID          int
-	recvWaiting int
+	waiters     []*chanWaiter // receivers parked on this channel (plain receive or select)
 	lastTaken   *chanItem
 	Timer       bool // a time.After channel
+}
+
+// chanWaiter: one parked receiver. A receiver parked in a select is registered on every channel it can
+// receive from; once a sender has deposited a value for it (a rendezvous on an unbuffered channel) it
+// is claimed and no other sender may count on it.
+type chanWaiter struct {
+	claimed bool
+	chans   []*ChanObj
+}
+
+func (ch *ChanObj) freeWaiter() *chanWaiter {
+	for _, w := range ch.waiters {
+		if !w.claimed {
+			return w
+		}
+	}
+	return nil
+}
+
+func (w *chanWaiter) park() {
+	for _, c := range w.chans {
+		c.waiters = append(c.waiters, w)
+	}
+}
+
+func (w *chanWaiter) leave() {
+	for _, c := range w.chans {
+		for i, x := range c.waiters {
+			if x == w {
+				c.waiters = append(c.waiters[:i:i], c.waiters[i+1:]...)
+				break
+			}
+		}
+	}
 }
 
 type ChanV struct{ C *ChanObj }
